@@ -532,7 +532,7 @@ theorem loaded_balance_never_errs (strict audit pe : Bool) (accts : List Path) (
   loaded_balance_never_errs_closed _ st' ts (C12.ofConfig_closed strict audit pe accts comms tags) hl txns hsel
 
 /-- **C02 end to end — `text_balance_never_errs`.**  Settings built from a configuration (`Settings.ofConfig`, any
-    switches, any charts), any a text that loads, any selection of its transactions: `Balance::balance` run with
+    switches, any charts), any text that loads, any selection of its transactions: `Balance::balance` run with
     the settings after the load does not fail. -/
 theorem text_balance_never_errs (cfg : Time.TsCfg) (strict audit pe : Bool) (accts : List Path) (comms tags : List String)
     (st' : Settings) (text : List Char) (ts : List Txn)
@@ -542,7 +542,7 @@ theorem text_balance_never_errs (cfg : Time.TsCfg) (strict audit pe : Bool) (acc
   loaded_balance_never_errs strict audit pe accts comms tags st' ts (loaded_of_text cfg _ st' text ts h) txns hsel
 
 /-- **C02 end to end — `files_balance_never_errs`.**  Settings built from a configuration (`Settings.ofConfig`, any
-    switches, any charts), any a list of file texts that loads, any selection of its transactions: `Balance::balance` run with
+    switches, any charts), any list of file texts that loads, any selection of its transactions: `Balance::balance` run with
     the settings after the load does not fail. -/
 theorem files_balance_never_errs (cfg : Time.TsCfg) (strict audit pe : Bool) (accts : List Path) (comms tags : List String)
     (st' : Settings) (files : List (List Char)) (ts : List Txn)
